@@ -188,6 +188,36 @@ def run(repo, rep, tier):
                         rep.finding("R17.4", uc, cl, f"the namespace `{ast.unparse(ns)}` passed to eval() is not created inside the per-datum "
                                     f"function: fields of one record stay visible to the evaluation of the next (a string quantity no "
                                     f"longer evaluates like the equivalent function)", stmt="eval namespace shared across calls")
+                    # precedence: whatever the record provides overrides the pre-loaded names (math.*, numpy, module globals), never the reverse
+                    if isinstance(ns, ast.Name):
+                        dparam = inner.args.args[0].arg if inner.args.args else None
+                        first = True
+                        for a in sorted((x for x in ast.walk(inner) if isinstance(x, (ast.Assign, ast.Expr))), key=lambda x: x.lineno):
+                            bad = None
+                            if isinstance(a, ast.Assign) and any(isinstance(t, ast.Name) and t.id == ns.id for t in a.targets):
+                                if first:
+                                    first = False
+                                    continue
+                                v = a.value
+                                if isinstance(v, ast.Dict) and any(k is None for k in v.keys):
+                                    parts = [ast.unparse(x) for k, x in zip(v.keys, v.values) if k is None]
+                                    if ns.id in parts and parts.index(ns.id) != 0:
+                                        bad = a
+                                elif isinstance(v, ast.Call) and isinstance(v.func, ast.Name) and v.func.id == "dict":
+                                    if any(kw.arg is None and ast.unparse(kw.value) == ns.id for kw in v.keywords):
+                                        bad = a
+                            if isinstance(a, ast.Expr) and isinstance(a.value, ast.Call) and isinstance(a.value.func, ast.Attribute):
+                                c2 = a.value
+                                if c2.func.attr == "setdefault" and ast.unparse(c2.func.value) == ns.id:
+                                    bad = a
+                                if c2.func.attr == "update" and ast.unparse(c2.func.value) != ns.id and any(ast.unparse(x) == ns.id for x in c2.args):
+                                    bad = a
+                            r4.ob(bad is None) if bad is not None else None
+                            if bad is not None:
+                                rep.finding("R17.4", uc, bad, f"`{norm(bad)[:80]}` lets the pre-loaded namespace `{ns.id}` (math.*, numpy, module globals) "
+                                            f"override what the record provides: a field named like a pre-loaded name (e, pi, gamma, ...) evaluates to "
+                                            f"the constant/function instead of the record's value, so the string quantity differs from the equivalent "
+                                            f"Python function on dict records", stmt=f"namespace precedence: {norm(bad)[:50]}")
     rets = [n for n in walk_local_stmt(uc.node) if isinstance(n, ast.Return) and n.value is not None and isinstance(n.value, ast.Call)
             and ast.unparse(n.value.func) == f"{sn}.fcn"]
     a = uc.node.args
